@@ -59,7 +59,9 @@ RULE = ('history = up to 6 constant definitions (gin.constant over modules {a,b,
         'gin.unlock_config():` and the probes called again after each (delivery "api" binds '
         'literal macros through gin.bind_parameter("%name", v)); optional closing text binding every referenced but '
         'unbound macro; probes called after observed parses and twice after the last; '
-        'gin.finalize(). Non-trivial = a checked macro use precedes a definition of that macro, '
+        'gin.finalize() or gin.parse_config_files_and_bindings with nothing to parse ((None, None), '
+        '([], []), ((), ()), ([], None), (None, "")), with an empty file and a binding, or with '
+        'only a binding. Non-trivial = a checked macro use precedes a definition of that macro, '
         'or a later parse redefines an already used macro, or >=2 constants share a suffix and a '
         'constant was used or an ambiguous suffix was rejected. Distinct = distinct case JSON. '
         'Sweeps: every ordered pair of constant names over {a,b,c} depth<=3 (quick: depth<=2 first '
@@ -96,6 +98,9 @@ ASSUMPTIONS = [
     'is a constant\'s name or abbreviation does not change what %name means: the constant, or an '
     'error when the abbreviation is ambiguous; such macros get plain literal values and are '
     'never expected to be delivered',
+    'gin.parse_config_files_and_bindings (finalize_config defaults to True) is a finalizing '
+    'entry point like gin.finalize(): whatever it is given to parse, nothing included, it must '
+    'reject / accept exactly as finalize would and lock the config when it accepts',
     'an include statement is in-place inclusion every time it is executed, however often the '
     'same file was included before',
     'gin.clear_config() (default clear_constants=False, documented to keep constants) empties '
@@ -136,7 +141,9 @@ FLOORS = {'nontrivial': (0.3, _H), 'nt:use-before-def': (0.15, _H),
           'finalize:counter-macros-not-evaluated': (0.1, _H),
           'const:enum-with-alias': (0.05, _H), 'const:enum-alias-checked': (0.03, _H),
           'shadow:constant-used-under-macro-name': (0.08, _H),
-          'shadow:ambiguous-still-rejected': (0.01, _H)}
+          'shadow:ambiguous-still-rejected': (0.01, _H),
+          'finalize:via pcfb with nothing to parse': (0.2, _H),
+          'finalize:rejected-via-pcfb-with-nothing': (0.03, _H)}
 TECHNIQUE = ('model-based property testing: Hypothesis-generated parse/define/use histories against '
              'a last-writer-wins reference map, identity checks for constants, plus an exhaustive '
              'sweep of ordered constant-name pairs')
@@ -352,6 +359,8 @@ def strategy(draw):
       # finalize may be called while a config scope is active: what it rejects does not depend
       # on that
       'finalize_scope': draw(st.sampled_from(['', '', 'zs', 'zs/zt'])),
+      # which finalizing entry point is used (see FINALIZE_VIAS)
+      'finalize_via': draw(st.sampled_from([0, 1, 0, 2, 3, 4, 5, 6, 7])),
   }
 
 
@@ -839,6 +848,15 @@ def _shadow(model, labels, spec, k, ambiguous_rejected):
   return ambiguous_rejected
 
 
+# gin.finalize() or gin.parse_config_files_and_bindings(files, bindings), which finalizes too:
+# with nothing at all to parse (five spellings of nothing), with a file and a binding, with only
+# a binding
+FINALIZE_VIAS = ['finalize()', 'pcfb(None, None)', 'pcfb([], [])', 'pcfb((), ())',
+                 'pcfb([], None)', "pcfb(None, '')", 'pcfb([file], [binding])',
+                 'pcfb(None, [binding])']
+_NOTHING = {1: (None, None), 2: ([], []), 3: ((), ()), 4: ([], None), 5: (None, '')}
+
+
 def _unlocked(model):
   """Texts parsed after a successful finalize go through the documented unlock_config()."""
   return gin.unlock_config() if model.locked else contextlib.nullcontext()
@@ -1216,11 +1234,28 @@ def check_case(case):
 
     def do_finalize(scope, when):
       """gin.finalize() against the model; True when it had to succeed (config now locked)."""
+      via = (case.get('finalize_via') or 0) % len(FINALIZE_VIAS)
+      labels.add('finalize:via ' + FINALIZE_VIAS[via])
+      if via in _NOTHING:
+        labels.add('finalize:via pcfb with nothing to parse')
+        entry = lambda: gin.parse_config_files_and_bindings(*_NOTHING[via])
+      elif via >= 6:
+        # something harmless to parse: an empty file and one literal binding (applied to the
+        # model first: it is part of the configuration that gets validated)
+        path = os.path.join(tmpdir, f'fin{next(fileno)}.gin')
+        with open(path, 'w') as f:
+          f.write('# nothing\n')
+        model.pos += 1
+        model.binds[(2, 'b')] = ('lit', 0)
+        files_arg = [path] if via == 6 else None
+        entry = lambda: gin.parse_config_files_and_bindings(files_arg, [f'{PROBES[2]}.b = 0'])
+      else:
+        entry = gin.finalize
       offenders = model.offenders()
       counts = dict(_COUNTS)
       try:
         with gin.config_scope(scope or None):
-          gin.finalize()
+          entry()
         raised = None
       except Exception as e:  # pylint: disable=broad-except
         raised = e
@@ -1237,13 +1272,15 @@ def check_case(case):
         labels.add('finalize:inside-config-scope')
       if offenders:
         require(raised is not None, 'finalize-accepted',
-                lambda: f'{when}: finalize() returned although the configuration has '
+                lambda: f'{when}: {FINALIZE_VIAS[via]} returned although the configuration has '
                         f'{offenders[:4]}')
         require(not gin.config_is_locked(), 'locked-after-rejected-finalize',
                 lambda: f'{when}: finalize() raised {type(raised).__name__} and left the config '
                         f'locked')
         if any(o[0] == 'unbound' and o[1] in model.refused for o in offenders):
           labels.add('finalize:rejected-after-failed-query')
+        if via in _NOTHING:
+          labels.add('finalize:rejected-via-pcfb-with-nothing')
         kinds = {o[0] for o in offenders}
         for kd in kinds:
           labels.add('finalize:rejected-' + kd)
@@ -1257,6 +1294,8 @@ def check_case(case):
       require(raised is None, 'finalize-rejected',
               lambda: f'{when}: finalize() raised {type(raised).__name__}: {str(raised)[:300]} '
                       f'although every referenced macro is bound and evaluated')
+      require(gin.config_is_locked(), 'not-locked-after-accepted-finalize',
+              lambda: f'{when}: {FINALIZE_VIAS[via]} returned and the config is not locked')
       labels.add('finalize:accepted')
       model.locked = True
       return True
